@@ -92,6 +92,8 @@ def execute(case, ctx):
             if a is None or "exc" in a:
                 return Result("fail", classes, True, dict(run.describe(), what="gf %s %d %d threw: %s" % (src, i, j, a and a["exc"])), "exc:gf")
             vals[src] = [cx(v) for v in a["n"]]
+            if [cx(v) for v in a.get("ncopy", [])] != vals[src]:
+                return Result("fail", classes, True, dict(run.describe(), what="a copy of the GreensFunction object (%s) for G_%d%d returns %r, the original %r" % (src, i, j, a.get("ncopy"), a["n"])), "copy-differs")
             if src == "gfc":
                 should = (not gset) or ((i, j) in gset)
                 if should and not a.get("listed"):
